@@ -112,6 +112,7 @@ func (s *Service) Start(ctx context.Context) error {
 		return ErrServiceReturned
 	}
 
+	verifAt("srv.Service.Start.checked")
 	if s.isRunning.Swap(true) {
 		return ErrServiceAlreadyStarted
 	}
@@ -166,6 +167,7 @@ func (s *Service) Start(ctx context.Context) error {
 			defer s.wg.Done()
 			defer close(mainSignal)
 			defer s.isRunning.Store(false)
+			defer verifAt("srv.Service.run.finished")
 			defer s.isFinished.Store(true)
 			if s.Cleanup != nil {
 				cleanup := s.Cleanup
@@ -181,6 +183,7 @@ func (s *Service) Start(ctx context.Context) error {
 			defer s.cancel()
 			ec.Add(s.Run(ctx))
 		}()
+		verifAt("srv.Service.Start.launched")
 	})
 
 	return nil
